@@ -112,7 +112,7 @@ PROPS = {
     "C01": {
         "modules": ["Sheens.Props.C01"],
         "theorems": ["Sheens.C01.match_sound", "Sheens.C01.Witness.sat"],
-        "facts": [],
+        "facts": ["matcher_switches", "ineq_ops", "name_conventions"],
         "runs": {
             "quick": [("match", ["-profile", "c01", "-n", "6000", "-reps", "3"])],
             "thorough": [("match", ["-profile", "c01", "-n", "150000", "-reps", "4"]),
@@ -124,7 +124,7 @@ PROPS = {
     "C02": {
         "modules": ["Sheens.Props.C02"],
         "theorems": [],
-        "facts": [],
+        "facts": ["matcher_switches", "name_conventions"],
         "runs": {
             "quick": [("match", ["-profile", "c02", "-n", "6000", "-reps", "3"])],
             "thorough": [("match", ["-profile", "c02", "-n", "150000", "-reps", "4"])],
@@ -135,7 +135,7 @@ PROPS = {
     "C03": {
         "modules": ["Sheens.Props.C03"],
         "theorems": [],
-        "facts": [],
+        "facts": ["match_copies_first", "copyBindingss_copies", "matcher_branches_copy", "matcher_writes_only_locals_and_bindings"],
         "runs": {
             "quick": [("match", ["-profile", "c03", "-n", "3000", "-reps", "24"])],
             "thorough": [("match", ["-profile", "c03", "-n", "40000", "-reps", "64"])],
@@ -147,7 +147,7 @@ PROPS = {
     "C04": {
         "modules": ["Sheens.Props.C04"],
         "theorems": [],
-        "facts": [],
+        "facts": ["engine_constants", "name_conventions"],
         "runs": {
             "quick": [("step", ["-profile", "step", "-n", "2500"]), ("walk", ["-profile", "walk", "-n", "1500"])],
             "thorough": [("step", ["-profile", "step", "-n", "40000"]), ("walk", ["-profile", "walk", "-n", "20000"]),
@@ -161,7 +161,7 @@ PROPS = {
     "C05": {
         "modules": ["Sheens.Props.C05"],
         "theorems": [],
-        "facts": [],
+        "facts": ["walk_accounting_sites"],
         "runs": {
             "quick": [("walk", ["-profile", "walk", "-n", "3000"]), ("split", ["-profile", "split", "-n", "1200"])],
             "thorough": [("walk", ["-profile", "walk", "-n", "50000"]), ("split", ["-profile", "split", "-n", "20000"])],
@@ -174,7 +174,7 @@ PROPS = {
     "C06": {
         "modules": ["Sheens.Props.C06"],
         "theorems": [],
-        "facts": [],
+        "facts": ["engine_writes_only_locals", "engine_mutators_on_fresh_maps", "step_returns_copies", "match_copies_first"],
         "runs": {
             "quick": [("walk", ["-profile", "failing", "-n", "2500"]), ("step", ["-profile", "failing", "-n", "2000"])],
             "thorough": [("walk", ["-profile", "failing", "-n", "40000"]), ("step", ["-profile", "failing", "-n", "40000"]),
@@ -188,7 +188,7 @@ PROPS = {
     "C07": {
         "modules": ["Sheens.Props.C07"],
         "theorems": [],
-        "facts": [],
+        "facts": ["walk_defaults_nil_control", "exec_writeback_guarded"],
         "runs": {
             "quick": [("walk", ["-profile", "failing", "-n", "2500"]), ("step", ["-profile", "timeouts", "-n", "400"]),
                       ("match", ["-profile", "c03", "-n", "1500", "-reps", "2"])],
@@ -203,7 +203,7 @@ PROPS = {
     "C08": {
         "modules": ["Sheens.Props.C08"],
         "theorems": [],
-        "facts": [],
+        "facts": ["es_error_exits_nil_exe", "try_adds_no_guard_events"],
         "runs": {
             "quick": [("walk", ["-profile", "failing", "-n", "2500"]), ("step", ["-profile", "failing", "-n", "1500"])],
             "thorough": [("walk", ["-profile", "failing", "-n", "50000"]), ("step", ["-profile", "failing", "-n", "30000"])],
@@ -216,7 +216,7 @@ PROPS = {
     "C18": {
         "modules": ["Sheens.Props.C18"],
         "theorems": [],
-        "facts": [],
+        "facts": ["exec_writeback_guarded", "name_conventions", "engine_constants"],
         "runs": {
             "quick": [("walk", ["-profile", "permanent", "-n", "2500"]), ("step", ["-profile", "permanent", "-n", "2000"])],
             "thorough": [("walk", ["-profile", "permanent", "-n", "50000"]), ("step", ["-profile", "permanent", "-n", "30000"])],
